@@ -17,6 +17,7 @@ RULE = ("operators: Pauli strings with <=3 factors on indices {0,7,12,123} x coe
         "coefficient map (Pauli strings are linearly independent), exact for simplified operators. Artefacts: measurement sets, expectation values (real/complex, "
         "0/1/2 frames), parities, value estimates (precision None/float/numpy), lists, layers, connectivity, ordering, measurement-count estimates, each through "
         "its own save/load with a path and (where accepted) an open file. non-trivial = operator with a non-real or non-unit coefficient or >= 2 terms / artefact with content")
+RULE += " Round 8: arrays in column-major layout / as transposed views; the dictionary form of an operator is not consumed by converting it back."
 RULE += " Round 7: every save goes to a path that already holds a LONGER artefact of the same kind; expectation values / parities through pathlib.Path, bytes paths and relative names starting with a tilde."
 RULE += " Round 5: 3-5 distinct correlation frames; loaded measurement sets answer get_counts like the saved ones; layers / connectivity not in ascending order; a term's coefficient reassigned between serialisations."
 ASSUMPTIONS = ["|coefficient| < 1e15 (the printed form of larger floats contains '+')", "absent and empty correlation/covariance lists are the same zero-frame case"]
@@ -90,6 +91,13 @@ def operator_case(case):
     ref = cmap(op)
     outs = []
     d = O.convert_op_to_dict(op)
+    # the dictionary form is the caller's: converting it back does not consume it - it can be converted a second time and dumped again
+    text_d = json.dumps(d, sort_keys=True)
+    first = O.convert_dict_to_op(d)
+    if json.dumps(d, sort_keys=True) != text_d:
+        return {"ok": False, "msg": "convert_dict_to_op modified the dictionary it was given", "expected": text_d[:300], "observed": json.dumps(d, sort_keys=True)[:300], "sig": "operator:dict-consumed"}
+    if not maps_close(cmap(O.convert_dict_to_op(d)), cmap(first)) or not maps_close(cmap(first), ref):
+        return {"ok": False, "msg": "converting the same dictionary a second time gives another operator", "sig": "operator:dict-second-read"}
     outs.append(("dict/json", O.convert_dict_to_op(json.loads(json.dumps(d)))))
     outs.append(("dict/rapidjson", O.convert_dict_to_op(rapidjson.loads(rapidjson.dumps(d)))))
     wd = scratch()
@@ -184,6 +192,11 @@ def arr(d):
     a = np.array(d["re"], dtype=float if d.get("dtype") != "int" else int)
     if d.get("im") is not None:
         a = a + 1j * np.array(d["im"], dtype=float)
+    # memory layout: the same values held column-major / as a transposed view (what .T, .conj().T and Fortran-ordered producers hand over)
+    if d.get("layout") == "F":
+        a = np.asfortranarray(a)
+    elif d.get("layout") == "T":
+        a = np.ascontiguousarray(a.T).T
     return a
 
 
@@ -375,8 +388,8 @@ def strings(maxf):
     return out
 
 
-def A(re, im=None, dtype=None):
-    return {"re": re, "im": im, "dtype": dtype}
+def A(re, im=None, dtype=None, layout=None):
+    return {"re": re, "im": im, "dtype": dtype, "layout": layout}
 
 
 def artefacts():
@@ -389,6 +402,13 @@ def artefacts():
     f1 = A([[1.0, 0.5], [0.5, 1.0]])
     f2 = A([[0.25]])
     fc = A([[1.0, 0.5], [0.5, 1.0]], [[0.0, -0.5], [0.5, 0.0]])
+    # NON-symmetric complex / real frames in column-major layout and as transposed views
+    gF = A([[1.0, 2.0, 3.0], [4.0, 5.0, 6.0], [7.0, 8.0, 9.0]], [[0.0, -1.0, 0.5], [0.25, 0.0, -2.0], [1.5, 3.0, 0.0]], layout="F")
+    gT = A([[1.0, 2.0], [3.0, 4.0]], [[0.5, -0.5], [0.25, 0.0]], layout="T")
+    gR = A([[1.0, 2.0], [3.0, 4.0]], layout="F")
+    out += [{"kind": "expectation_values", "values": A([0.5, -1.0, 2.0]), "cor": cor_, "cov": cov_} for cor_, cov_ in (([gF], None), (None, [gF, gF]), ([gF], [gF]))]
+    out += [{"kind": "expectation_values", "values": A([0.5, -1.0]), "cor": cor_, "cov": cov_} for cor_, cov_ in (([gT], [gR]), ([gR, gT], None), (None, [gT]))]
+    out += [{"kind": "nmeas", "nmeas": 3.5, "nterms": 2, "frame_meas": f_} for f_ in (A([[2.0, 0.5], [1.0, 3.0]], [[0.0, 1.0], [-1.0, 0.5]], layout="F"), A([[2.0, 0.5], [1.0, 3.0]], layout="T"))]
     f3 = A([[0.0, -1.0, 2.0], [-1.0, 0.5, 0.0], [2.0, 0.0, 1e-12]])
     f4 = A([[2.0, -0.5], [-0.5, 2.0]])
     frames = [None, [], [f1], [f1, f2], [fc], [fc, f1], [f2, f1, f3], [f1, f4, f2, f3, fc]]   # up to five distinct frames: count and order are observable
